@@ -80,7 +80,7 @@ m('redo-update-unpin-inside-guard', ['C14', 'C01'], LR, '''					pg.SetLSN(logRec
 				}
 				logRecov.bufferPoolManager.UnpinPage(logRecord.UpdateRID.GetPageID(), true)''', '''					pg.SetLSN(logRecord.GetLSN())
 					logRecov.bufferPoolManager.UnpinPage(logRecord.UpdateRID.GetPageID(), true)
-				}''', ['C14-R1 [(*recovery/log_recovery.LogRecovery).Redo:pin-leak]'])
+				}''', ['[(*recovery/log_recovery.LogRecovery).Redo:pin-leak]'])
 m('undo-markdelete-wrong-inverse', ['C02'], LR, '''				pg.RollbackDelete(&logRecord.DeleteRID, txn, logRecov.logManager)
 				logRecov.bufferPoolManager.UnpinPage(logRecord.DeleteRID.GetPageID(), true)
 				isUndoOccured = true
@@ -243,7 +243,7 @@ m('hashjoin-last-page-not-unpinned', ['C14', 'C11'], 'lib/execution/executors/ha
 	if tmpPageID != common.InvalidPageID {
 		e.context.GetBufferPoolManager().UnpinPage(tmpPageID, true)
 	}
-}''', '''}''', ['C14-R1 [(*execution/executors.HashJoinExecutor).Init:pin-leak]'])
+}''', '''}''', ['[(*execution/executors.HashJoinExecutor).Init:pin-leak]'])
 m('heap-gettuple-conditional-unpin', ['C14'], TH, '''	page.RUnlatch()
 	t.bpm.UnpinPage(page.GetPageID(), false)
 
